@@ -10,6 +10,7 @@ MODULES = [
     "process_executor",
     "context",
     "resource_tracker",
+    "cloudpickle_wrapper",
     "properties",
 ]
 
